@@ -107,6 +107,30 @@ def p2pEvent (s : St) (tok : String) : Option Retrieve.Event :=
 /-- every operation on the node / the DA layer goes through `FullNode.hstep` -/
 def hop (s : St) (o : FullNode.HOp) : St := { s with h := FullNode.hstep s.cfg s.h o }
 
+/-- an item for the node's P2P stores: a header (as the go-header store holds it, with the crypto oracle of the object)
+or a data item; `JD<k>`: junk data naming height `k` (the genuine metadata, transactions no block holds) -/
+def p2pItem (s : St) (tok : String) : Option ((SignedHeader × Retrieve.Oracle) ⊕ Data) :=
+  let pa := s.cfg.sync.proposerAddr
+  let blk := fun (rest : String) =>
+    match rest.toNat? with
+    | none => none
+    | some k => if k > s.prod.store.height then none else s.prod.store.getBlock k
+  if tok.startsWith "FH" then
+    (blk ((tok.drop 2).toString)).map fun b =>
+      .inl ({ header := { b.sh.hdr with appHash := forgedBytes }, signature := [1], signer := { address := pa, pubKey := s.pk2 } }, FullNode.oHdr)
+  else if tok.startsWith "XH" then
+    (blk ((tok.drop 2).toString)).map fun b =>
+      .inl ({ header := b.sh.hdr, signature := [2], signer := { address := b.sh.signer.addr, pubKey := s.pk } }, FullNode.oBad)
+  else if tok.startsWith "JD" then
+    (blk ((tok.drop 2).toString)).map fun b =>
+      .inr { metadata := b.data.metadata, txs := [Bytes.ofString ("junk" ++ (tok.drop 2).toString)] }
+  else if tok.startsWith "H" then
+    (blk ((tok.drop 1).toString)).map fun b =>
+      .inl ({ header := b.sh.hdr, signature := [1], signer := { address := b.sh.signer.addr, pubKey := s.pk } }, FullNode.oHdr)
+  else if tok.startsWith "D" then
+    (blk ((tok.drop 1).toString)).map fun b => .inr b.data
+  else none
+
 def parseFetch (t : String) : Option Retrieve.Fetch :=
   match t.splitOn ":" with
   | ["ok"] => some .ok
@@ -165,6 +189,21 @@ def step (s : St) (line : String) : St × String :=
     let shown := toks.map fun t => if (p2pEvent s t).isSome then t else s!"{t}:none"
     let s1 := hop s (.p2p evs)
     (s1, s!"p2p {if shown.isEmpty then "-" else String.intercalate "," shown} " ++ observe s1.cfg s1.h.nd s1.h.ws ++ " " ++ showInc s1.cfg s1.h)
+  | "p2pstore" =>
+    -- items arrive in the P2P stores (go-header); unless poll=0 the REAL store loops poll once each and everything
+    -- runs until quiescent
+    let toks := if o.str "items" = "" || o.str "items" = "-" then [] else (o.str "items").splitOn ","
+    let its := toks.map fun t => (t, p2pItem s t)
+    let hs := its.filterMap fun (_, x) => match x with | some (.inl h) => some h | _ => none
+    let ds := its.filterMap fun (_, x) => match x with | some (.inr d) => some d | _ => none
+    let shown := its.map fun (t, x) => if x.isSome then t else s!"{t}:none"
+    let sh := if shown.isEmpty then "-" else String.intercalate "," shown
+    if o.str "poll" = "0" then
+      let s1 := hop s (.p2padd hs ds)
+      (s1, s!"p2padd {sh} hs={s1.cfg.sync.initialHeight - 1 + s1.h.hStore.length} ds={s1.cfg.sync.initialHeight - 1 + s1.h.dStore.length}")
+    else if !s.h.ok then (s, "dead") else
+      let s1 := hop s (.p2pstore hs ds (o.str "order" ≠ "dh"))
+      (s1, s!"p2pstore {sh} hs={s1.cfg.sync.initialHeight - 1 + s1.h.hStore.length} ds={s1.cfg.sync.initialHeight - 1 + s1.h.dStore.length} " ++ observe s1.cfg s1.h.nd s1.h.ws ++ " " ++ showInc s1.cfg s1.h)
   | "restart" =>
     if !s.h.ok then (s, "dead") else
     let s1 := hop s .restart
